@@ -68,13 +68,15 @@ DoSession(e) ==
                        THEN {"C12.injective"} ELSE {}) \cup
                    (IF f \in Live /\ ~GuessHonoured(st, mp) THEN {"C12.guess"} ELSE {}) \cup
                    (IF ps[f] /\ ~Correct(st, mp) THEN {"C12.correct"} ELSE {})
-         fails == IF ~ok THEN {"C12.raised"} ELSE UNION {bad(f) : f \in Steps}
+         known == ~ok /\ env.nf > 0 /\ KF_GuessMissingFrame(env, e)
+         fails == IF ~ok THEN (IF known THEN {} ELSE {"C12.raised"}) ELSE UNION {bad(f) : f \in Steps}
          hits  == (IF Live # {} THEN {"C12.range", "C12.injective"} ELSE {}) \cup
                   (IF \E f \in Live : Len(env.guess[f]) > 0 THEN {"C12.guess"} ELSE {}) \cup
                   (IF \E f \in Steps : ps[f] THEN {"C12.correct"} ELSE {}) \cup
                   (IF \E f \in Steps : e.maps[f].none THEN {"C12.skipped_step"} ELSE {})
          drift == IF ok /\ env.exact /\ (\E f \in Steps : IDrift(env, e, f)) THEN {"C12.I_mapping"} ELSE {}
-     IN  /\ EmitV(e, fails, {}, hits, drift, ok /\ ~(\E f \in Steps : ps[f]))
+     IN  /\ EmitV(e, fails, IF known THEN {"KF_GuessMissingFrame:C12.raised"} ELSE {}, hits, drift,
+                   ok /\ ~(\E f \in Steps : ps[f]))
          /\ prem' = ps
   /\ ses' = e
   /\ UNCHANGED <<env, vel>>
@@ -150,13 +152,13 @@ DoRHS(e) ==
   /\ LET F == e.t + 1
          known == SesOK /\ vel[F] # <<>>
          built == e.built_raised = "" /\ ~e.oor /\ e.rows_outside = 0
-         U == IF built /\ e.raised = "" THEN {p \in 1..env.np : e.rowof[p] >= 0} ELSE {}
+         U == IF built THEN {p \in 1..env.np : e.rowof[p] >= 0} ELSE {}
          allKnown == known /\ (\A p \in U : vel[F][p][1] = 1) /\ (e.dyn /\ (e.adim \/ e.norm # Q) => InRange(F, U))
          \* static mode: everything zero
          static == ~e.dyn
          dynOK == e.dyn /\ built /\ allKnown /\ e.raised = ""
-         mean == IF dynOK /\ e.adim /\ U # {} THEN MeanSpeed(F, U) ELSE Q
-         undefined == e.dyn /\ e.adim /\ allKnown /\ U # {} /\ MeanSpeed(F, U) < 1000   \* mean speed ~ 0
+         mean == IF e.dyn /\ built /\ allKnown /\ e.adim /\ U # {} THEN MeanSpeed(F, U) ELSE Q
+         undefined == e.dyn /\ e.adim /\ built /\ allKnown /\ U # {} /\ mean < 1000   \* mean speed ~ 0: quotient undefined
          rowsOK == \A p \in U : /\ e.rowof[p] + 2 <= e.nrows
                                 /\ \A q \in U : (q # p) => (e.rowof[q] # e.rowof[p] /\ e.rowof[q] # e.rowof[p] + 1)
          X(p) == e.b[e.rowof[p] + 1]
@@ -169,10 +171,9 @@ DoRHS(e) ==
            ELSE IF static
                 THEN (IF e.raised # "" THEN {"C13.raised"}
                       ELSE IF \E k \in DOMAIN e.b : e.b[k] # 0 THEN {"C13.static_zero"} ELSE {})
-           ELSE IF ~known THEN {}
-           ELSE IF e.raised # "" THEN (IF (StepNone(F) /\ e.raised = "DifferentTissueException") \/
-                                          (e.adim /\ e.raised = "FloatingPointError") THEN {} ELSE {"C13.raised"})
-           ELSE IF ~allKnown \/ undefined THEN {}
+           ELSE IF ~known \/ ~allKnown THEN {}
+           ELSE IF e.raised # "" THEN (IF undefined /\ e.raised = "FloatingPointError" THEN {} ELSE {"C13.raised"})
+           ELSE IF undefined THEN {}
            ELSE IF ~rowsOK THEN {"C13.rhs_rows"}
            ELSE (IF plain /\ ((\E p \in U : ~Close(X(p), vx(p), 2) \/ ~Close(Y(p), vy(p), 2)) \/ e.avg # Q)
                     THEN {"C13.rhs_rows"} ELSE {}) \cup
@@ -198,19 +199,20 @@ DoRHS(e) ==
 DoSysVel(e) ==
   /\ e.ev = "SysVel"
   /\ LET anyNone == SesOK /\ \E f \in 1..(env.nf - 1) : ses.maps[f].none
-         usable == SesOK /\ ~anyNone /\ ~e.oor
-         Fs == IF usable /\ e.raised = "" THEN
+         usable == SesOK /\ ~anyNone /\ ~e.oor /\ e.built_raised = ""
+         Known == IF usable /\ Len(e.used) = env.nf THEN
                  {F \in 1..env.nf : /\ vel[F] # <<>> /\ e.used[F] # <<>>
                                     /\ \A p \in Range(e.used[F]) : p \in 1..env.np /\ vel[F][p][1] = 1
-                                    /\ InRange(F, Range(e.used[F]))
-                                    /\ MeanSpeed(F, Range(e.used[F])) >= 1000}
-               ELSE {}
+                                    /\ InRange(F, Range(e.used[F]))}
+                  ELSE {}
+         Still == {F \in Known : MeanSpeed(F, Range(e.used[F])) < 1000}       \* mean speed ~ 0
+         Fs == IF e.raised = "" THEN Known \ Still ELSE {}
          fails == IF ~usable THEN {}
-                  ELSE IF e.raised # "" THEN (IF e.raised = "FloatingPointError" THEN {} ELSE {"C13.raised"})
+                  ELSE IF e.raised # "" THEN (IF e.raised = "FloatingPointError" /\ Still # {} THEN {} ELSE {"C13.raised"})
                   ELSE IF Len(e.vals) # env.nf THEN {"C13.system_velocity"}
                   ELSE IF \E F \in Fs : LET m == MeanSpeed(F, Range(e.used[F])) IN ~Close(e.vals[F], m, 100 + m \div 20000)
                        THEN {"C13.system_velocity"} ELSE {}
-     IN  EmitV(e, fails, {}, IF Fs # {} THEN {"C13.system_velocity"} ELSE {}, {}, Fs = {})
+     IN  EmitV(e, fails, {}, IF Fs # {} THEN {"C13.system_velocity"} ELSE {}, {}, Fs = {} /\ fails = {})
   /\ UNCHANGED <<env, ses, prem, vel>>
 
 Next == /\ l <= Len(TR)
